@@ -158,6 +158,8 @@ class History:
             results.append(self.run(job, step))
         elif op == 'placed':
             results.extend(self.apply_placed(step))
+        elif op == 'rejected':
+            results.extend(self.apply_rejected(step))
         elif op == 'fault':
             from vf.sim.faults import apply_fault
             apply_fault(self, step)
@@ -247,6 +249,12 @@ class History:
             w.push('vf-third:refs/heads/' + action['name'], actor='third',
                    check=False)
             w.g('checkout', '-q', '--detach')
+        elif kind == 'new_tag':
+            base = (w.chain or w.hot)[0]
+            if base in w.heads():
+                w.g('push', '-q', 'origin', '%s:refs/tags/%s' % (
+                    w.heads()[base], action['name']), actor='third',
+                    check=False)
         elif kind in ('push_src', 'force_src'):
             info = w.prs.get(action.get('pr'))
             if not info or info['src'] not in w.heads():
@@ -264,6 +272,24 @@ class History:
                        actor='third', check=False)
             w.g('checkout', '-q', '--detach')
         w.note_commits()
+
+    def apply_rejected(self, step):
+        """Run step['job'] on a snapshot while the remote refuses the
+        single ref step['ref'] (branch protection); monitors judge it; the
+        world is restored afterwards."""
+        from vf.sim.faults import set_reject, clear_reject
+
+        def go():
+            job = self.job_from(step['job'])
+            if job is None:
+                return []
+            self.injector.reset_plan()
+            set_reject(self.world, step['ref'], False)
+            try:
+                return [self.run(job, step)]
+            finally:
+                clear_reject(self.world)
+        return self.on_snapshot(go) or []
 
     def apply_placed(self, step):
         """Run step['job'] on a snapshot with a third-party action placed
